@@ -562,9 +562,16 @@ func genFvssOrders(c *Ctx) {
 	n, t, me, dealer := 4, 2, 1, 0
 	for _, vk := range []string{"ok", "wrong-size", "short-by-one-point", "bad-point", "bad-point-last", "not-in-g2", "not-in-g2-last", "cancelling-non-g2", "identity-points", "duplicate", "empty-payload"} {
 		for _, sk := range []string{"ok", "a0", "wrong-value", "wrong-size", "zero"} {
-			for order := 0; order < 2; order++ {
+			for order := 0; order < 6; order++ {
+				// orders 2..5: the dealer re-broadcasts the VALID vector after the invalid one (right after it, or at the
+				// end): the first vector decides, a later one must not repair the verdict
+				retry := order / 2
+				if retry > 0 && (vk == "ok" || vk == "duplicate" || vk == "identity-points") {
+					continue
+				}
 				p := c.randPoly(t)
 				v := p.vectorMsg()
+				v0 := append([]byte{}, v...)
 				switch vk {
 				case "wrong-size":
 					v = v[:len(v)-1]
@@ -612,8 +619,20 @@ func genFvssOrders(c *Ctx) {
 				}
 				nd.call("S:" + hx(c.bytes(32)))
 				calls := []string{"B:0:" + hx(v), "P:0:" + hx(sh)}
-				if order == 1 {
+				if order%2 == 1 {
 					calls[0], calls[1] = calls[1], calls[0]
+				}
+				if retry == 1 {
+					calls = append(calls, "B:0:"+hx(v0))
+				} else if retry == 2 {
+					var cs []string
+					for _, tok := range calls {
+						cs = append(cs, tok)
+						if strings.HasPrefix(tok, "B:") {
+							cs = append(cs, "B:0:"+hx(v0))
+						}
+					}
+					calls = cs
 				}
 				if vk == "duplicate" {
 					calls = append(calls, "B:0:"+hx(v))
